@@ -299,6 +299,15 @@ pub fn history_tree(rng: &mut crate::rng::Rng, dm: Dm, idx: usize) -> (Doc, Vec<
                 } else {
                     parent.children.push(h);
                 }
+                // the parent's own initial specification may point at its history (W3C test 579 idiom)
+                if parent.kind == Kind::State && self.rng.chance(1, 3) {
+                    let as_element = self.rng.chance(1, 2);
+                    parent.initial = Some(Initial {
+                        targets: vec![id.clone()],
+                        as_element,
+                        body: if as_element && self.dm != Dm::Null { vec![Stmt::Mark(format!("i:{}", parent.id), vec![])] } else { vec![] },
+                    });
+                }
                 self.hist.push(id);
             }
         }
